@@ -129,6 +129,16 @@ reg("C15", "exploration",
     "property-based testing (Hypothesis) incl. stateful rule-based machine; round-trip + differential oracles",
     "DESIGN.md section 4 C15")
 
+reg("C08", "exploration",
+    "Hypothesis-generated lists of per-locus assignments with a permutation are resolved by the real "
+    "MultimapResolver and compared with a reference model of the documented priority order (class dominance, ties "
+    "kept and flagged ambiguous, duplicates identified, order independence); pipeline-level paralogous loci check "
+    "suppression of losers in TSV/BED/count tables, default vs --high_memory and permuted chromosome / record order.",
+    "Within the inconsistent and uninformative classes only order-independence and non-emptiness are required; one "
+    "repaired defect and two known findings (shared root cause with C02) listed.",
+    "property-based testing (Hypothesis) with reference model + permutation (metamorphic) relation",
+    "DESIGN.md section 4 C08")
+
 NOT_YET = "check not built yet in this session (see DESIGN.md section 6a build order)"
 
 
